@@ -386,6 +386,91 @@ func subWriter() mon.Sub {
 	}
 }
 
+// subStacked: cipher readers / writers built on top of one another (a relay
+// that unmasks with the peer's key and masks again with its own; a proxy that
+// peeks at the first bytes and re-masks the rest): each layer is the XOR with
+// ITS key from ITS offset 0, wherever the layer below has got to.
+func subStacked() mon.Sub {
+	return mon.Sub{
+		Name: "stacked", Required: true,
+		N: func(t string) int {
+			if t == "thorough" {
+				return 100000
+			}
+			return 2000
+		},
+		Do: func(c *mon.C) {
+			n := []int{1, 2, 3, 5, 8, 13, 16, 31, 64, 200, 1000}[c.Rng.Intn(11)]
+			src := make([]byte, n)
+			c.Rng.Read(src)
+			k1, k2 := keyOf(c, 3), keyOf(c, c.Rng.Intn(4))
+			head := c.Rng.Intn(n + 1)
+			if head > 9 && c.Rng.Intn(2) == 0 {
+				head = c.Rng.Intn(10)
+			}
+			ps := xport.Plans(c.Rng.Int63(), nil)
+			plan := ps[c.Rng.Intn(len(ps))]
+			// reader over reader
+			c.Count(1)
+			inner := wsutil.NewCipherReader(xport.NewChunker(src, plan), k1)
+			first := make([]byte, head)
+			if _, err := io.ReadFull(readerOnlyLoop{inner}, first); err != nil {
+				c.Fail("stacked/reader/error", "inner CipherReader: "+err.Error(), nil)
+				return
+			}
+			outer := wsutil.NewCipherReader(inner, k2)
+			rest, err := io.ReadAll(outer)
+			if err != nil {
+				c.Fail("stacked/reader/error", "outer CipherReader: "+err.Error(), nil)
+				return
+			}
+			want1 := ref.Mask(src, k1, 0)
+			wantRest := ref.Mask(want1[head:], k2, 0)
+			det := map[string]interface{}{"len": n, "read_through_inner_first": head, "plan": plan.String(), "key1": fmt.Sprintf("%x", k1), "key2": fmt.Sprintf("%x", k2)}
+			if !bytes.Equal(first, want1[:head]) || !bytes.Equal(rest, wantRest) {
+				c.Fail("stacked/reader/bytes", fmt.Sprintf("a CipherReader on top of a CipherReader that had delivered %d bytes: first difference at byte %d of the outer stream", head, firstDiff(rest, wantRest)), det)
+				return
+			}
+			// writer over writer
+			c.Count(1)
+			rec := xport.NewRec()
+			wi := wsutil.NewCipherWriter(rec, k1)
+			if _, err := wi.Write(src[:head]); err != nil {
+				c.Fail("stacked/writer/error", err.Error(), det)
+				return
+			}
+			wo := wsutil.NewCipherWriter(wi, k2)
+			for _, part := range cutRandom(c, src[head:]) {
+				if _, err := wo.Write(part); err != nil {
+					c.Fail("stacked/writer/error", err.Error(), det)
+					return
+				}
+			}
+			wantW := append(append([]byte(nil), want1[:head]...), ref.Mask(ref.Mask(src[head:], k2, 0), k1, head)...)
+			if got := rec.Bytes(); !bytes.Equal(got, wantW) {
+				c.Fail("stacked/writer/bytes", fmt.Sprintf("a CipherWriter on top of a CipherWriter that had taken %d bytes: first difference at %d", head, firstDiff(got, wantW)), det)
+				return
+			}
+			c.Classf("n=%s head%%4=%d k2=%x", lenClass(n), head%4, k2)
+			c.Sample(det)
+		},
+	}
+}
+
+type readerOnlyLoop struct{ r io.Reader }
+
+func (r readerOnlyLoop) Read(p []byte) (int, error) { return r.r.Read(p) }
+
+func cutRandom(c *mon.C, p []byte) [][]byte {
+	var out [][]byte
+	for len(p) > 0 {
+		k := 1 + c.Rng.Intn(len(p))
+		out = append(out, p[:k])
+		p = p[k:]
+	}
+	return out
+}
+
 func sameBacking(a, b []byte) bool {
 	if cap(a) == 0 || cap(b) == 0 {
 		return false
@@ -514,9 +599,9 @@ func main() {
 		Property: "C02",
 		Level:    "exploration",
 		Rule: "cases: (a) exhaustive grid payload length {0..96,127..129,255..257,1000,4095..4097,65539} x offset {0..11, 2^16+1, 2^31+2, 2^40+3} x slice alignment 0..15 x 4 keys with 32-byte canaries, " +
-			"(b) random partitions with running offset, (c) CipherReader over chunked sources x caller buffer sizes x mid-stream Reset, (d) CipherWriter over random write partitions incl. short-write destinations, (e) the six frame mask/unmask helpers x all lengths x 4 keys, the masking helpers also on frames whose header already says masked, and all six on frames whose Header.Length is unset or stale (the payload is what gets masked). " +
+			"(b) random partitions with running offset, (c) CipherReader over chunked sources x caller buffer sizes x mid-stream Reset, (d) CipherWriter over random write partitions incl. short-write destinations, (d') cipher readers stacked on cipher readers that already delivered 0..n bytes, and writers on writers (each layer = XOR with its own key from its own offset 0), (e) the six frame mask/unmask helpers x all lengths x 4 keys, the masking helpers also on frames whose header already says masked, and all six on frames whose Header.Length is unset or stale (the payload is what gets masked). " +
 			"Non-trivial = output compared byte-for-byte with the naive XOR reference; distinct = (length, offset mod 4, alignment, key kind) / (length class, partition size, plan, buffer) classes. Built with -race (checkptr on).",
 		Assumptions: []string{"reference ref.Mask is the one-line XOR of RFC 6455 §5.3", "offsets near MaxInt are outside what a stream can reach and are not claimed"},
-		Subs:        []mon.Sub{subGrid(), subChunks(), subReader(), subWriter(), subFrames()},
+		Subs:        []mon.Sub{subGrid(), subChunks(), subReader(), subWriter(), subStacked(), subFrames()},
 	})
 }
